@@ -14,6 +14,7 @@ MACHINE = None
 NEEDS_POOL = True
 N_QUICK = 1200
 N_THOROUGH = 40000
+FINAL_HOOK = None      # p_c20e: observations of the real executors / futures inside the final atomic block
 KINDS = ["map", "flat_map", "poll", "retry", "throttle", "timeout", "cancel_on_shutdown"]
 TYPE = {"map": "map", "flat_map": "flat_map", "poll": "poll", "retry": "retry", "throttle": "throttle", "timeout": "timeout",
         "cancel_on_shutdown": "cancel_on_shutdown"}
@@ -165,6 +166,9 @@ def execute(p, chooser):
             ts.append(det.spawn("sh", lambda: (det.sleep(1), top.shutdown(True))))
         if p.get("base_shutdown_at") == 1:
             ts.append(det.spawn("bsh", lambda: (det.sleep(1), base_ex.shutdown(False))))
+        # (p_c20e) several threads shut the stack down at the same virtual time: exactly one of them is answered True per layer
+        for k in range(p.get("shutdown_race", 0)):
+            ts.append(det.spawn("race%d" % k, lambda: (det.sleep(p.get("race_at", 1)), top.shutdown(False))))
         for t in ts:
             t.join()
         # let everything finish, then shut down
@@ -181,6 +185,8 @@ def execute(p, chooser):
             obs["actual_throttle_queue"] = sum(len(o._to_submit) for (k, o) in layer_objs if k == "throttle")
             obs["actual_retry_queue"] = sum(len(o._jobs) for (k, o) in layer_objs if k == "retry")
             obs["history_min"] = min([v for (k, v) in pc.HISTORY] + [0])
+            if FINAL_HOOK is not None:
+                FINAL_HOOK(obs, quiescent())
             obs["negatives"] = sorted(set(k for (k, v) in pc.HISTORY if v < 0))
 
     def quiescent():
